@@ -328,11 +328,12 @@ def run(ctx):
     okf = False
     for o in outs:
         fin = [e for e in o.st.ev if e[0] == 'call' and e[1].endswith('::finish') and 'SearchStream' in e[1]]
-        ext = [e for e in o.st.ev if e[0] == 'call' and e[1].endswith('::extend')]
+        ext = [e for e in o.st.ev if e[0] == 'call' and e[1].rsplit('::', 1)[-1] in ('extend', 'append', 'extend_from_slice')]
         if len(fin) == 1 and len(ext) == 1:
             res = ('await', ('call', fin[0][1], fin[0][2], fin[0][3].get('id')))
-            okf = o.val == res and ext[0][2][0] == ('field', res, 'refs') and ext[0][2][1][0] == 'call' and ext[0][2][1][1].endswith('mem::take') \
-                and ext[0][2][1][2][0] == ('field', SELF, 'refs')
+            # the collected URIs (moved or copied out of self.refs) are appended to the upstream result's list, which is then returned
+            okf = o.val == res and ext[0][2][0] == ('field', res, 'refs') and ext[0][2][1] == ('field', SELF, 'refs') \
+                and not [e for e in o.st.ev if e[0] == 'store' and e[1] == ('field', res, 'refs')]
     ctx.add('Q4.entries-only.finish-merges-refs', EF.path, loc(EF.root), okf, 'EntriesOnly::finish does not append the collected referral URIs to the upstream result')
 
 
